@@ -18,6 +18,7 @@ TOPS = ["none", "ETOD", "Multi(1)", "Multi(2)", "TestResultDecorator", "Tagger"]
 BOTTOMS = ["ETOD", "Multi(1)", "Multi(2)"]
 TESTOBJ = ["TestCase", "PlaceHolder", "ErrorHolder"]
 DETAIL_TEXT = "détail-text"
+TRACE_TEXT = "trace-text"
 
 
 class _T(testtools.TestCase):
@@ -98,6 +99,8 @@ BTB_STATUS = {"success": "success", "failure": "failure", "error": "error", "ski
 def call_outcome(res, test, outcome, as_details):
     if as_details:
         d = {"d": text_content(DETAIL_TEXT)}
+        if outcome in ("failure", "error", "xfail"):
+            d["traceback"] = text_content(TRACE_TEXT)      # a traceback detail next to another text detail
         if outcome == "skip":
             d = {"reason": text_content(DETAIL_TEXT)}
         getattr(res, P.EVENT[outcome])(test, details=d)
@@ -122,11 +125,13 @@ def payload_ok(ev, outcome, as_details, tkind):
     if outcome == "uxsuccess":
         return True      # no old-style protocol can carry details of an unexpected success
     want = DETAIL_TEXT if (as_details or outcome == "skip") else "boom-exc"
+    both = as_details and outcome in ("failure", "error", "xfail")
     if isinstance(x, dict):
-        return any(want in c.as_text() for c in x.values() if c.content_type.type == "text")
+        texts = [c.as_text() for c in x.values() if c.content_type.type == "text"]
+        return any(want in t for t in texts) and (not both or any(TRACE_TEXT in t for t in texts))
     if isinstance(x, tuple):
         if as_details:
-            return want in str(x[1])
+            return want in str(x[1]) and (not both or TRACE_TEXT in str(x[1]))
         return x[1] is not None and want in str(x[1])
     if isinstance(x, str):
         return want in x
